@@ -9,6 +9,8 @@ from .repo import ClassInfo, FunctionInfo, oracle, PYMOD
 from .contracts import Clause
 
 TIMEOUT_MS = int(os.environ.get("PYVC_TIMEOUT_MS", "60000"))
+QUICK_MS = int(os.environ.get("PYVC_QUICK_MS", "4000"))
+UNGUARDED_MS = int(os.environ.get("PYVC_UNGUARDED_MS", "15000"))
 
 
 class ContractError(Exception):
@@ -527,19 +529,35 @@ class Verifier:
         labs = [l for l, _ in ctx.labels]
         status, model, core = "undecided", None, []
 
-        def attempt(transform, timeout_ms, seed=0):
+        def attempt(transform, timeout_ms, seed=0, guarded=True):
             s = z3.Solver()
             s.set("timeout", timeout_ms)
             if seed:
                 s.set("random_seed", seed)
             s.add([transform(f) for f in sym.FACTS.facts])
-            s.add([transform(f) for f in ctx.pc])
+            if guarded:
+                s.add([transform(f) for f in ctx.pc])
+            else:
+                # callee clauses asserted outright instead of under their tracking literals: the solver can then eliminate
+                # `result == <spec term>` equalities by substitution, which makes congruence-style goals immediate
+                sub = [(l, z3.BoolVal(True)) for l in labs]
+                s.add([transform(z3.simplify(z3.substitute(f, *sub))) if sub else transform(f) for f in ctx.pc])
             s.add(transform(z3.Not(g)))
             if transform is sym.abstract_nl:
                 s.add(sym._ABS_SIDE)
-            return s, s.check(*labs)
+            return s, (s.check(*labs) if guarded else s.check())
+        overapprox_core = False
         # (1) nonlinear abstraction first: linear + EUF, fast and stable; only `unsat` is trusted
-        s, r = attempt(sym.abstract_nl, TIMEOUT_MS)
+        s, r = attempt(sym.abstract_nl, QUICK_MS)
+        if r == z3.unknown and labs:
+            # (1b) a query that is not immediate: try it with the callee clauses asserted outright (for congruence-style goals such
+            # as xrecover/val this takes 0.0 s where the guarded form takes 0.5-60 s depending on load).  If that proves the goal,
+            # the dependencies are over-approximated by ALL callee clauses assumed on this path (a larger cone: sound for the closure)
+            s0, r0 = attempt(sym.abstract_nl, UNGUARDED_MS, guarded=False)
+            if r0 == z3.unsat:
+                s, r, overapprox_core = s0, r0, True
+        if r == z3.unknown:
+            s, r = attempt(sym.abstract_nl, TIMEOUT_MS)
         if r != z3.unsat and not os.environ.get("PYVC_NO_EXACT"):
             # (2) exact query
             s, r = attempt(lambda f: f, TIMEOUT_MS)
@@ -558,9 +576,13 @@ class Verifier:
             cross = cvc5_crosscheck(s, labs)
         if r == z3.unsat:
             status = "discharged"
-            uc = s.unsat_core()
-            ids = {u.get_id() for u in uc}
-            core = [info for l, info in ctx.labels if l.get_id() in ids] + list(ctx.always_deps)
+            if overapprox_core:
+                core = [info for l, info in ctx.labels] + list(ctx.always_deps)
+                extra = dict(extra or {}, core="over-approximated: all callee clauses of the path")
+            else:
+                uc = s.unsat_core()
+                ids = {u.get_id() for u in uc}
+                core = [info for l, info in ctx.labels if l.get_id() in ids] + list(ctx.always_deps)
         elif r == z3.sat:
             status = "refuted"
             model = self.extract_model(ip, s.model())
